@@ -1,6 +1,7 @@
 import SJ.Properties.C10
 import SJ.Proofs.SourceLevelA
 import SJ.Proofs.SourceLevelD
+import SJ.Proofs.SourceLevelE
 set_option linter.unusedVariables false
 /-
 C10 — source level. The theorems of Properties/C10.lean composed with the source ties of DESIGN §6.3: each statement
@@ -124,5 +125,73 @@ theorem C10_source_roots_read_back (pj : PJ) (v : LVal) (vs : List LVal) (h : Ok
       ((∀ x ∈ (v :: vs).map erase, NoNegZero x) →
         ∃ l, Spec.ndText txt.toList = .accept (.arr l) ∧ renderJRoots (l.map ofSpec) = txt) :=
   SJ.SourceLevelD.C10_source_roots_read_back pj v vs h hfs hc hb F hF
+
+open SJ.Generated SJ.GoSem SJ.GoIter SJ.GoObject SJ.Layout SJ.GoWrappers SJ.GoElems SJ.SourceLevelE SJ.Tables SJ.WalkLayout SJ.Lookup in
+/-- **`Elements.MarshalJSON()` is `View.elemsMarshal`** (the hand model IS the nil-destination version): all of
+    `GoElems.elems_tie` at `dst = nil`, on the store without `dst` (`elemsEnv0`: the receiver's three lists = `encElems es`,
+    ANY index, the two buffers), with one more unit of fuel for the call.  For elements whose iterators are views of the
+    tape with `cur < 2^63`, wherever the model's inner fuel (`fuelOf pj`, in `Iter.marshalBuf`) suffices:
+    model `.ok out` ⇔ the wrapper returns `(out, nil)`, tape unchanged; model `.error _` ⇔ `(nil, err)`;
+    model `.panic` ⇔ panic; the interpreter is neither out of fuel nor stuck; in every returning case the caller's five
+    receiver variables read as before (by-value receiver, through `callFun`'s copy-back).
+    Hypotheses: those of `elems_tie` (`BufOK`: Go `int` buffer lengths; `lim ≤ len(tape)`: views of the tape;
+    `cur < 2^63`: the inherited difference of `Iter.MarshalJSONBuffer`, hand-made values only; `≠ .diverge`: the model's own
+    fuel) — nothing is added but the unit of fuel. -/
+theorem C10_source_elementsMarshalJSON_wrapper (pj : PJ) (hb : BufOK pj) (es : Array View.Elem)
+    (hes : ∀ x ∈ es, x.iter.lim ≤ pj.tape.size ∧ x.iter.cur.toNat < 2^63) (idx : List Bytes × List Int)
+    (F : Nat) (hF : elemsFuel pj es + 1 ≤ F) (hnd : View.elemsMarshal pj es ≠ .diverge) :
+    (∀ out, View.elemsMarshal pj es = .ok out ↔
+      ∃ s, runFun goFuns goElements_MarshalJSON F ⟨elemsEnv0 pj es idx, pj.tape⟩ = .ret s [.bytes out, .bool false] ∧
+        s.tape = pj.tape ∧ ∀ key ∈ eVars, s.env.get key = (elemsEnv0 pj es idx).get key) ∧
+    ((∃ er, View.elemsMarshal pj es = .error er) ↔
+      ∃ s, runFun goFuns goElements_MarshalJSON F ⟨elemsEnv0 pj es idx, pj.tape⟩ = .ret s [.bytes #[], .bool true] ∧
+        ∀ key ∈ eVars, s.env.get key = (elemsEnv0 pj es idx).get key) ∧
+    (View.elemsMarshal pj es = .panic ↔
+      runFun goFuns goElements_MarshalJSON F ⟨elemsEnv0 pj es idx, pj.tape⟩ = .panic) ∧
+    runFun goFuns goElements_MarshalJSON F ⟨elemsEnv0 pj es idx, pj.tape⟩ ≠ .diverge ∧
+    (∀ w, runFun goFuns goElements_MarshalJSON F ⟨elemsEnv0 pj es idx, pj.tape⟩ ≠ .stuck w) :=
+  SJ.SourceLevelE.elementsMarshalJSON_sim pj hb es hes idx F hF hnd
+
+open SJ.Generated SJ.GoSem SJ.GoIter SJ.GoObject SJ.Layout SJ.GoWrappers SJ.GoElems SJ.SourceLevelE SJ.Tables SJ.WalkLayout SJ.Lookup SJ.MarshalExact in
+/-- **`Object.Parse` then `Elements.MarshalJSONBuffer`, source level** (`C12_source_parse` ∘ `C10_array_elements_agree` ∘
+    `GoElems.elems_tie`).  On a tape that holds the located object `.obj p e ms` with finite floats (gaps anywhere except
+    between a key and its value: `TightTop`), running `o.Parse(dst)` of `parsed_object.go` on the object's view from any store
+    binding the receiver, the flag `dst == nil` and the buffers returns `(dst, nil)`, tape untouched; and then running
+    `Elements.MarshalJSONBuffer(buf)` on ANY store `e1` whose receiver lists `e.Elements.{Name,Type,Iter}` read what `Parse`
+    left in `dst.Elements.{Name,Type,Iter}` (the value `*dst` passed as the by-value receiver; `e.Index` may hold anything:
+    never read), with `buf` and the two buffers, returns `buf ++ renderJ (erase (.obj p e ms))` — `buf` followed by the
+    canonical text of the object, which depends on the abstract document only: all members in tape order, duplicates included,
+    NOP gaps invisible — and `nil`; the tape is untouched.
+    Discharged: all hypotheses of the marshal tie about the elements (`lim ≤ len(tape)`, `cur < 2^63`: `Parse` stores views of
+    the tape and 56-bit payloads), non-divergence of the model (the property computes the result), `v.lim ≤ len(tape)`, the
+    model fuel.  Kept: `TightTop ms`, `FloatsOk` (a NaN/±Inf float has no JSON text: the marshal then returns an error),
+    `BufOK pj` (Go `int` buffer lengths), the interpreter's budgets `e - p + 4` and `4·len(tape) + 30`. -/
+theorem C10_source_elements_marshal (pj : PJ) (p e : Nat) (ms : LMems) (hok : Ok pj (.obj p e ms)) (ht : TightTop ms)
+    (hf : FloatsOk (.obj p e ms)) (hb : BufOK pj) (b : Bool) (e0 : Env)
+    (hv : viewAt e0 "o" = some { lim := e, off := p + 1 }) (hN : e0.get "dst==nil" = some (.bool b))
+    (hS : e0.get "Strings.B" = some (.bytes pj.strings)) (hM : e0.get "Message" = some (.bytes pj.msg))
+    (F : Nat) (hF : e - p + 4 ≤ F) :
+    ∃ s, runFun goFuns goObject_Parse F ⟨e0, pj.tape⟩ = .ret s [.bool true, .bool false] ∧ s.tape = pj.tape ∧
+      ∀ (e1 : Env) (buf : Bytes) (G : Nat),
+        e1.get "e.Elements.Name" = s.env.get "dst.Elements.Name" →
+        e1.get "e.Elements.Type" = s.env.get "dst.Elements.Type" →
+        e1.get "e.Elements.Iter" = s.env.get "dst.Elements.Iter" →
+        e1.get "dst" = some (.bytes buf) → e1.get "Strings.B" = some (.bytes pj.strings) →
+        e1.get "Message" = some (.bytes pj.msg) → 4 * pj.tape.size + 30 ≤ G →
+        ∃ st, runFun goFuns goElements_MarshalJSONBuffer G ⟨e1, pj.tape⟩ =
+            .ret st [.bytes (buf ++ renderJ (erase (.obj p e ms))), .bool false] ∧ st.tape = pj.tape :=
+  SJ.SourceLevelE.C10_source_elements_marshal pj p e ms hok ht hf hb b e0 hv hN hS hM F hF
+
+open SJ.Generated SJ.GoSem SJ.GoIter SJ.GoObject SJ.Layout SJ.GoWrappers SJ.GoElems SJ.SourceLevelE SJ.Tables SJ.WalkLayout SJ.Lookup SJ.MarshalExact in
+/-- **… and `Elements.MarshalJSON()` on the parsed elements returns the canonical text of the object, source level**
+    (`elementsMarshalJSON_sim` ∘ the same property).  The store is the conventional one of the wrapper (`elemsEnv0`): the
+    receiver's three lists hold the members' elements — `encElems (memElems pj ms)`, written out by `encElems_members`, exactly
+    what `C12_source_parse` says `Parse` leaves — ANY index, and the two buffers.  One more unit of fuel for the call. -/
+theorem C10_source_elements_marshalJSON (pj : PJ) (p e : Nat) (ms : LMems) (hok : Ok pj (.obj p e ms)) (ht : TightTop ms)
+    (hf : FloatsOk (.obj p e ms)) (hb : BufOK pj) (idx : List Bytes × List Int) (G : Nat)
+    (hG : 4 * pj.tape.size + 31 ≤ G) :
+    ∃ st, runFun goFuns goElements_MarshalJSON G ⟨elemsEnv0 pj (memElems pj ms) idx, pj.tape⟩ =
+        .ret st [.bytes (renderJ (erase (.obj p e ms))), .bool false] ∧ st.tape = pj.tape :=
+  SJ.SourceLevelE.C10_source_elements_marshalJSON pj p e ms hok ht hf hb idx G hG
 
 end SJ.Properties.C10
